@@ -719,3 +719,56 @@ func genSelfNest(r *rng, emit func(FlowScenario)) {
 		}
 	}
 }
+
+// two nodes of DIFFERENT field-less types (and a nil-pointer node) in one flow: each has its own row of the transition table
+func genZeroSizeNodes(r *rng, emit func(FlowScenario)) {
+	t := &tokGen{r: r}
+	mkLeaf := func(impl string) *LeafCfg {
+		return &LeafCfg{Retryable: false, Fb: "absent", PrepS: "direct", ExecS: "direct", PostS: "direct", Impl: impl}
+	}
+	plain := LeafCfg{Retryable: true, Budget: 1, Fb: "pass", PrepS: "direct", ExecS: "direct", PostS: "direct"}
+	for _, order := range [][3]string{{"emptyA", "emptyB", "nilptr"}, {"emptyB", "nilptr", "emptyA"}, {"nilptr", "emptyA", "emptyB"}} {
+		for rep := 0; rep < 2; rep++ {
+			c := plain
+			sc := FlowScenario{Kind: "canceled", Ctx0: "live", LeafScripts: []LeafScript{}, BatchScripts: []BatchScript{}}
+			sc.Nodes = []NodeDef{{ID: 0, Leaf: mkLeaf(order[0])}, {ID: 1, Leaf: mkLeaf(order[1])}, {ID: 2, Leaf: mkLeaf(order[2])}, {ID: 3, Leaf: &c}}
+			// 0 -go-> 1 -go-> 2 -go-> 3, and decoy edges on the same action from the other nodes
+			ops := []Conn{{Src: 0, Action: "go", Dst: ip(1)}, {Src: 1, Action: "go", Dst: ip(2)}, {Src: 2, Action: "go", Dst: ip(3)},
+				{Src: 0, Action: "back", Dst: ip(3)}, {Src: 1, Action: "back", Dst: ip(0)}}
+			if rep == 1 { // the rows are written in another order
+				ops = []Conn{ops[2], ops[4], ops[1], ops[3], ops[0]}
+			}
+			sc.Nodes = append(sc.Nodes, NodeDef{ID: 4, Flow: &FlowDef{Start: ip(0), Ops: ops}})
+			t.next, t.errN = r.intn(30), 0
+			for id := 0; id < 3; id++ {
+				sc.LeafScripts = append(sc.LeafScripts, t.leafScript(id, 0, true, 1, 1, true, "=go"))
+			}
+			sc.LeafScripts = append(sc.LeafScripts, t.leafScript(3, 0, true, 1, 1, true, "=done"))
+			sc.Steps = []Step{{Run: ip(4)}}
+			emit(sc)
+		}
+	}
+}
+
+// a long loop THROUGH A SUB-FLOW: the parent visits the same nested flow a few hundred times in one execution
+func genSubFlowLoop(r *rng, thorough bool, emit func(FlowScenario)) {
+	t := &tokGen{r: r}
+	leaf := LeafCfg{Retryable: true, Budget: 1, Fb: "pass", PrepS: "direct", ExecS: "direct", PostS: "direct"}
+	for _, n := range []int{130, 320} {
+		a, b := leaf, leaf
+		sc := FlowScenario{Kind: "canceled", Ctx0: "live", LeafScripts: []LeafScript{}, BatchScripts: []BatchScript{}}
+		// 0 = A (inside the sub-flow S = 2), 1 = B, 3 = parent: S -again-> S, S -out-> B
+		sc.Nodes = []NodeDef{{ID: 0, Leaf: &a}, {ID: 1, Leaf: &b},
+			{ID: 2, Flow: &FlowDef{Start: ip(0), Ops: []Conn{}}},
+			{ID: 3, Flow: &FlowDef{Start: ip(2), Ops: []Conn{{Src: 2, Action: "again", Dst: ip(2)}, {Src: 2, Action: "out", Dst: ip(1)}}}}}
+		t.next, t.errN = r.intn(30), 0
+		loop := t.leafScript(0, 0, true, 1, 1, true, "=again")
+		loop.Prep, loop.Exec = "t1", []string{"t2"}
+		exit := t.leafScript(0, n-1, true, 1, 1, true, "=out")
+		sc.NodeDefaults = []LeafScript{loop}
+		sc.LeafScripts = append(sc.LeafScripts, exit, t.leafScript(1, 0, true, 1, 1, true, "=done"))
+		sc.Longest = 3*n + 10
+		sc.Steps = []Step{{Run: ip(3)}}
+		emit(sc)
+	}
+}
